@@ -661,3 +661,25 @@ def field_min_len(W, adt, field):
                     if pj and pj[-1].get("name") == field and pj[-1].get("adt") == adt:
                         return 0, "%s assigns the field" % fn.path
     return min(lens), "initialised with >= %d element(s) by every constructor and never shrunk" % min(lens)
+
+
+# ------------------------------------------------------------------------------------------------ effects (T-effect)
+EFFECT_CLASSES = {
+    "randomness": ("rand::", "rand_core::", "ring::rand", "getrandom::", "SystemRandom", "thread_rng", "from_entropy", "OsRng"),
+    "clock": ("SystemTime::now", "Instant::now", "chrono::offset::utc::Utc::now", "chrono::offset::local::Local::now", "time::Instant"),
+    "environment": ("std::env::", "std::fs::", "std::net::", "mio::"),
+    "thread": ("std::thread::current", "std::thread::spawn", "std::thread::Builder"),
+}
+
+
+def effects_of(prog, roots, classes=None):
+    """{class: [(external callee, call chain)]} for everything reachable from roots."""
+    reach, ext, parent = prog.reach(roots)
+    out = {}
+    for e in sorted(ext):
+        for cls, pats in EFFECT_CLASSES.items():
+            if classes and cls not in classes:
+                continue
+            if any(p in e for p in pats):
+                out.setdefault(cls, []).append((e, prog.chain(parent, e)))
+    return out, reach, ext
